@@ -140,7 +140,8 @@ class Ctx:
             cmd += ["-simulate", simulate]
         cmd += (extra or []) + [module + ".tla"]
         env = dict(os.environ)
-        env.setdefault("JAVA_TOOL_OPTIONS", "-Xss64m")
+        # TLC leaves an empty tlc-* directory in java.io.tmpdir on every run: keep it inside the scratch dir
+        env.setdefault("JAVA_TOOL_OPTIONS", "-Xss64m -Djava.io.tmpdir=" + d)
         t = time.time()
         try:
             p = subprocess.run(cmd, cwd=d, env=env, timeout=timeout, stdout=subprocess.PIPE,
